@@ -129,6 +129,13 @@ class Module:
         deannotate(self.tree)
         canonical_imports(self.tree)
         augment(self.tree)
+        if not os.environ.get('MPSA_NO_RENAME_TOLERANCE'):
+            from .anchors import load_anchors as _la
+            from .normalize import propagate_new_constants
+
+            ref_globals = (_la().get('__globals__') or {}).get(self.rel)
+            if ref_globals is not None:
+                self.constants_read = propagate_new_constants(self.tree, keep=set(ref_globals))
         self.normalised = desugar_walrus(self.tree) + normalize(self.tree)
         self.lines = self.source.splitlines()
         self.functions: dict[str, FuncInfo] = {}
